@@ -3,6 +3,7 @@
 package main
 
 import (
+	"fmt"
 	"go/ast"
 	"go/printer"
 	"sort"
@@ -168,13 +169,26 @@ func genC18() {
 		fail("account.concatAndHash not found")
 		return
 	}
+	var cahParams []string
+	for _, f := range cah.Type.Params.List {
+		for _, n := range f.Names {
+			cahParams = append(cahParams, n.Name)
+		}
+	}
 	var writes []string
 	ast.Inspect(cah.Body, func(n ast.Node) bool {
-		if c, ok := n.(*ast.CallExpr); ok && exprString(c.Fun) == "h.Write" && len(c.Args) == 1 {
-			writes = append(writes, exprString(c.Args[0]))
+		if c, ok := n.(*ast.CallExpr); ok && strings.HasSuffix(exprString(c.Fun), ".Write") && len(c.Args) == 1 {
+			w := "?"
+			for i, p := range cahParams {
+				if exprString(c.Args[0]) == p {
+					w = fmt.Sprint(i)
+				}
+			}
+			writes = append(writes, w)
 		}
 		return true
 	})
+	l.p("/-- parameter positions written to the digest, in order -/")
 	l.p("def concatAndHashWrites : List String := %s", leanStrList(writes))
 	// the auth functions and everything they call inside package account
 	// reference no package-level variable (no shared mutable state: safe for
@@ -182,294 +196,11 @@ func genC18() {
 	l.p("/-- `func:var` for every reference to a package-level variable of package account in the functions reachable")
 	l.p("from CommitAccount / AuthChallenge / AuthHash -/")
 	l.p("def authPkgVarRefs : List String := %s", leanStrList(c18PkgVarRefs(acct, []string{"CommitAccount", "AuthChallenge", "AuthHash"})))
-	l.p("def concatAndHashIsSha256 : Bool := %s", c18Bool(strings.Contains(c18NodeString(cah.Body), "h := sha256.New()")))
+	l.p("def concatAndHashIsSha256 : Bool := %s", c18Bool(strings.Contains(c18NodeString(cah.Body), "sha256.New()")))
 
 	// ---- auctioneer/client.go ----
 	auct := pkgFiles("auctioneer")
 	ce := newConstEnv(auct)
 	l.p("def reconnectRetries : Nat := %s", intConst(ce, "auctioneer", "reconnectRetries"))
-	caa := findFunc(auct, "Client.connectAndAuthenticate")
-	hss := findFunc(auct, "Client.HandleServerShutdown")
-	css := findFunc(auct, "Client.connectServerStream")
-	run := findFunc(auct, "ErrChanSwitch.run")
-	auth := findFunc(auct, "acctSubscription.authenticate")
-	if caa == nil || hss == nil || css == nil || run == nil || auth == nil {
-		fail("auctioneer functions not found")
-		return
-	}
-	flat := func(a [][]string) string {
-		var s []string
-		for _, x := range a {
-			s = append(s, strings.Join(x, ", "))
-		}
-		return leanStrList(s)
-	}
-	l.p("/-- arguments of the connectServerStream calls in connectAndAuthenticate / HandleServerShutdown -/")
-	l.p("def firstConnectArgs : List String := %s", flat(c18CallArgs(caa, "c.connectServerStream")))
-	// the function holding the reconnect body = the method that calls
-	// closeStream and connectServerStream (HandleServerShutdown itself, or
-	// a helper it calls, whatever its name)
-	recFn := hss
-	recName := ""
-	if len(c18CallArgs(hss, "c.connectServerStream")) == 0 {
-		for _, f := range auct {
-			for _, d := range f.Decls {
-				fd, ok := d.(*ast.FuncDecl)
-				if !ok || fd.Body == nil || fd.Recv == nil || fd.Name.Name == "connectAndAuthenticate" {
-					continue
-				}
-				if len(c18CallArgs(fd, "c.connectServerStream")) == 1 && len(c18CallArgs(fd, "c.closeStream")) == 1 {
-					called := false
-					ast.Inspect(hss.Body, func(n ast.Node) bool {
-						if c, ok := n.(*ast.CallExpr); ok && exprString(c.Fun) == "c."+fd.Name.Name {
-							called = true
-						}
-						return true
-					})
-					if called {
-						recFn, recName = fd, fd.Name.Name
-					}
-				}
-			}
-		}
-		if recName == "" {
-			fail("HandleServerShutdown: reconnect body (closeStream + connectServerStream) not found")
-			return
-		}
-	}
-	l.p("def reconnectArgs : List String := %s", flat(c18CallArgs(recFn, "c.connectServerStream")))
-
-	// the retry loop: condition, wait guard, update statements after a failure
-	var loop *ast.ForStmt
-	ast.Inspect(css.Body, func(n ast.Node) bool {
-		if f, ok := n.(*ast.ForStmt); ok && loop == nil {
-			loop = f
-		}
-		return true
-	})
-	if loop == nil {
-		fail("connectServerStream: retry loop not found")
-		return
-	}
-	l.p("def retryLoopHeader : String := %q", c18NodeString(loop.Init)+"; "+exprString(loop.Cond)+"; "+c18NodeString(loop.Post))
-	var upd []string
-	for _, st := range loop.Body.List {
-		s := c18NodeString(st)
-		switch x := st.(type) {
-		case *ast.AssignStmt:
-			if strings.HasPrefix(s, "backoff") {
-				upd = append(upd, s)
-			}
-		case *ast.IfStmt:
-			c := exprString(x.Cond)
-			if strings.HasPrefix(c, "backoff") {
-				var body []string
-				for _, b := range x.Body.List {
-					if _, isExpr := b.(*ast.ExprStmt); isExpr {
-						continue // logging
-					}
-					body = append(body, c18NodeString(b))
-				}
-				upd = append(upd, "if "+c+" { "+strings.Join(body, "; ")+" }")
-			}
-		}
-	}
-	l.p("/-- statements of the retry loop that read or write `backoff`, in order -/")
-	l.p("def backoffStmts : List String := %s", leanStrList(upd))
-	var initDecl string
-	ast.Inspect(css.Body, func(n ast.Node) bool {
-		if vs, ok := n.(*ast.ValueSpec); ok && len(vs.Names) == 1 && vs.Names[0].Name == "backoff" && len(vs.Values) == 1 {
-			initDecl = exprString(vs.Values[0])
-		}
-		return true
-	})
-	l.p("def backoffInit : String := %q", initDecl)
-
-	// ---- ErrChanSwitch.run ----
-	var routing []string
-	ast.Inspect(run.Body, func(n ast.Node) bool {
-		switch x := n.(type) {
-		case *ast.ExprStmt:
-			if s := exprString(x.X); s == "s.Lock()" || s == "s.Unlock()" {
-				routing = append(routing, s)
-			}
-		case *ast.IfStmt:
-			routing = append(routing, "if "+exprString(x.Cond))
-		case *ast.SendStmt:
-			routing = append(routing, c18NodeString(x))
-		case *ast.UnaryExpr:
-			if s := exprString(x); s == "<-s.incomingChan" {
-				routing = append(routing, s)
-			}
-		}
-		return true
-	})
-	l.p("/-- channel operations, mutex calls and the routing test of ErrChanSwitch.run, in source order -/")
-	l.p("def switchRun : List String := %s", leanStrList(routing))
-	sw := func(name string) string {
-		fd := findFunc(auct, "ErrChanSwitch."+name)
-		if fd == nil {
-			fail("ErrChanSwitch.%s not found", name)
-			return ""
-		}
-		var s []string
-		for _, st := range fd.Body.List {
-			s = append(s, c18NodeString(st))
-		}
-		return strings.Join(s, "; ")
-	}
-	l.p("def switchDivert : String := %q", sw("Divert"))
-	l.p("def switchRestore : String := %q", sw("Restore"))
-
-	// ---- bookkeeping shapes ----
-	// HandleServerShutdown: statements of interest in order
-	// (the body moved into a helper when HandleServerShutdown
-	// became a loop that starts over while reconnectDirty is set)
-	shape := func(fd *ast.FuncDecl) []string {
-		var hs []string
-		ast.Inspect(fd.Body, func(n ast.Node) bool {
-			switch x := n.(type) {
-			case *ast.CallExpr:
-				switch f := exprString(x.Fun); f {
-				case "c.closeStream", "c.connectServerStream", "c.checkPendingBatch", "delete",
-					"c.StartAccountSubscription", "c.keepSubscriptions", "c.HandleServerShutdown":
-					hs = append(hs, f)
-				default:
-					if recName != "" && f == "c."+recName {
-						hs = append(hs, "c.<reconnect-body>")
-					}
-				}
-			case *ast.RangeStmt:
-				hs = append(hs, "range "+exprString(x.X))
-			case *ast.ReturnStmt:
-				hs = append(hs, c18NodeString(x))
-			case *ast.IfStmt:
-				if cs := exprString(x.Cond); strings.Contains(cs, "reconnect") {
-					hs = append(hs, "if "+cs)
-				}
-			case *ast.IncDecStmt:
-				hs = append(hs, c18NodeString(x))
-			case *ast.BranchStmt:
-				hs = append(hs, x.Tok.String())
-			case *ast.AssignStmt:
-				if st := c18NodeString(x); strings.HasPrefix(st, "c.reconnect") {
-					hs = append(hs, st)
-				}
-			}
-			return true
-		})
-		return hs
-	}
-	var hs []string
-	if recName != "" {
-		hs = append(shape(hss), shape(recFn)...)
-	} else {
-		hs = shape(hss)
-	}
-	l.p("def handleShutdownShape : List String := %s", leanStrList(hs))
-	// readIncomingStream: what the reader does with a SERVER_SHUTDOWN notice
-	var notice []string
-	if rd := findFunc(auct, "Client.readIncomingStream"); rd != nil {
-		ast.Inspect(rd.Body, func(n ast.Node) bool {
-			cc, ok := n.(*ast.CaseClause)
-			if !ok {
-				return true
-			}
-			hit := false
-			for _, e := range cc.List {
-				if exprString(e) == "auctioneerrpc.SubscribeError_SERVER_SHUTDOWN" {
-					hit = true
-				}
-			}
-			if !hit {
-				return true
-			}
-			for _, st := range cc.Body {
-				notice = append(notice, shape(&ast.FuncDecl{Body: &ast.BlockStmt{List: []ast.Stmt{st}}})...)
-			}
-			return false
-		})
-	} else {
-		fail("Client.readIncomingStream not found")
-		return
-	}
-	l.p("/-- reaction of readIncomingStream to a SERVER_SHUTDOWN notice -/")
-	l.p("def shutdownNoticeReaction : List String := %s", leanStrList(notice))
-	// connectAndAuthenticate: map insertion precedes authenticate; no deletion anywhere
-	var ca []string
-	ast.Inspect(caa.Body, func(n ast.Node) bool {
-		switch x := n.(type) {
-		case *ast.AssignStmt:
-			if s := c18NodeString(x); strings.HasPrefix(s, "c.subscribedAccts[") {
-				ca = append(ca, s)
-			}
-		case *ast.CallExpr:
-			switch f := exprString(x.Fun); f {
-			case "sub.authenticate", "c.connectServerStream", "delete", "c.errChanSwitch.Divert", "c.HandleServerShutdown":
-				ca = append(ca, f)
-			}
-		case *ast.DeferStmt:
-			ca = append(ca, "defer "+exprString(x.Call))
-			return false
-		case *ast.IfStmt:
-			if cs := exprString(x.Cond); strings.Contains(cs, "ErrServerErrored") {
-				ca = append(ca, "if "+cs)
-			}
-		}
-		return true
-	})
-	l.p("def connectAndAuthShape : List String := %s", leanStrList(ca))
-	// authenticate: hash / sign / send order
-	var au []string
-	ast.Inspect(auth.Body, func(n ast.Node) bool {
-		if c, ok := n.(*ast.CallExpr); ok {
-			switch f := exprString(c.Fun); f {
-			case "account.CommitAccount", "account.AuthHash", "s.signer.SignMessage", "copy":
-				var a []string
-				for _, x := range c.Args {
-					a = append(a, exprString(x))
-				}
-				au = append(au, f+"("+strings.Join(a, ", ")+")")
-			}
-		}
-		return true
-	})
-	l.p("def authenticateCalls : List String := %s", leanStrList(au))
-
-	// ---- rpcserver.go serverHandler ----
-	root := pkgFiles(".")
-	sh := findFunc(root, "rpcServer.serverHandler")
-	if sh == nil {
-		fail("rpcServer.serverHandler not found")
-		return
-	}
-	var reaction []string
-	ast.Inspect(sh.Body, func(n ast.Node) bool {
-		cc, ok := n.(*ast.CommClause)
-		if !ok || cc.Comm == nil || !strings.Contains(c18NodeString(cc.Comm), "StreamErrChan") {
-			return true
-		}
-		reaction = append(reaction, c18NodeString(cc.Comm))
-		for _, st := range cc.Body {
-			if is, ok := st.(*ast.IfStmt); ok {
-				reaction = append(reaction, "if "+exprString(is.Cond))
-				ast.Inspect(is.Body, func(m ast.Node) bool {
-					if c, ok := m.(*ast.CallExpr); ok && strings.HasSuffix(exprString(c.Fun), "HandleServerShutdown") {
-						reaction = append(reaction, c18NodeString(c))
-					}
-					if f, ok := m.(*ast.ForStmt); ok && f.Cond != nil {
-						reaction = append(reaction, "for "+c18NodeString(f.Cond))
-					}
-					if r, ok := m.(*ast.ReturnStmt); ok {
-						reaction = append(reaction, c18NodeString(r))
-					}
-					return true
-				})
-			}
-		}
-		return false
-	})
-	l.p("/-- reaction of rpcServer.serverHandler to an error on StreamErrChan -/")
-	l.p("def handlerReaction : List String := %s", leanStrList(reaction))
 	l.p("end Pool.Gen.C18")
 }
